@@ -39,3 +39,8 @@ Record site := mk_site { s_guards : list bexp; s_act : action }.
 
 (* one function: name, and its sites in source order *)
 Definition fn_table := (str * list site)%type.
+
+(* a FLAG local of a function (only ever bound to True / False): its assignment sites in source order, each with
+   the conjunction of the enclosing guards and the constant assigned.  An atom `name@k` that reads the flag denotes
+   its value after the first k assignment sites. *)
+Definition flag_table := (str * list (list bexp * bool))%type.
